@@ -76,6 +76,13 @@ static long n_events = 0;
 static long short_read = 0;
 static uint64_t dir_seed = 0;
 static long getrandom_calls = 0;
+/* wall clock: a fixed epoch plus simulated time, minus planned backward steps */
+static long rt_reads = 0;
+static long long rt_back_ns = 0;
+static long rt_back_index[16];
+static long long rt_back_amount[16];
+static int n_rt_back = 0;
+
 static int stderr_errno = 0; /* plan: `stderrfail <errno>`: every write to fd 2 fails */
 
 static char *fd_paths[MAX_FDS];
@@ -199,6 +206,14 @@ static void load_plan(const char *path) {
             max_events = strtol(arg, NULL, 10);
         } else if (!strcmp(line, "shortread")) {
             short_read = strtol(arg, NULL, 10);
+        } else if (!strcmp(line, "rtback")) {
+            /* rtback <wall-clock read index> <ns>: the wall clock steps back (NTP, VM resume) */
+            if (n_rt_back < 16) {
+                char *e;
+                rt_back_index[n_rt_back] = strtol(arg, &e, 10);
+                rt_back_amount[n_rt_back] = strtoll(e, NULL, 10);
+                n_rt_back++;
+            }
         } else if (!strcmp(line, "stderrfail")) {
             stderr_errno = atoi(arg);
         } else if (!strcmp(line, "dirseed")) {
@@ -312,6 +327,23 @@ ssize_t getrandom(void *buf, size_t buflen, unsigned int flags) {
 
 int clock_gettime(clockid_t clk, struct timespec *ts) {
     if (!active) return (int)syscall(SYS_clock_gettime, clk, ts);
+    if (clk == CLOCK_REALTIME || clk == CLOCK_REALTIME_COARSE) {
+        long idx = rt_reads++;
+        long long step = clock_max_step > 0 ? (long long)(splitmix(&clock_state) % (uint64_t)(clock_max_step + 1)) : 0;
+        clock_now_ns += step;
+        for (int i = 0; i < n_rt_back; i++)
+            if (rt_back_index[i] == idx) rt_back_ns += rt_back_amount[i];
+        long long wall = 1700000000LL * 1000000000LL + clock_now_ns - rt_back_ns;
+        ts->tv_sec = wall / 1000000000LL;
+        ts->tv_nsec = wall % 1000000000LL;
+        budget_check();
+        if (log_fd >= 0) {
+            char buf[128];
+            int n = snprintf(buf, sizeof buf, "wallclock\t%ld\t%lld\t%lld\n", idx, wall, rt_back_ns);
+            if (n > 0) raw_write_all(log_fd, buf, (size_t)n);
+        }
+        return 0;
+    }
     long idx = clock_reads++;
     long long step = clock_max_step > 0 ? (long long)(splitmix(&clock_state) % (uint64_t)(clock_max_step + 1)) : 0;
     clock_now_ns += step;
